@@ -380,7 +380,7 @@ macro_rules | `(tactic| reach_peel) => `(tactic| first
   | (refine Reach.trans ?_ (reach_hostAssign _ _ _)))
 
 theorem reach_backendDone (w : World) (s : Nat) : Reach w (backendDone w s) := by
-  unfold backendDone; split <;> exact reach_updAux _ _ _
+  unfold backendDone; exact reach_updAux _ _ _
 
 theorem reach_connectionClose (w : World) (s : Nat) : Reach w (connectionClose w s) := by
   unfold connectionClose; dsimp only
@@ -391,7 +391,7 @@ theorem reach_connectionClose (w : World) (s : Nat) : Reach w (connectionClose w
 theorem reach_backendError (w : World) (s : Nat) : Reach w (backendError w s).2 := by
   unfold backendError; dsimp only
   refine Reach.trans ?_ (reach_connectionClose _ _)
-  split <;> reach_close
+  reach_close
 
 theorem reach_reconnect (w : World) (s : Nat) : Reach w (reconnect w s).2 := by
   unfold reconnect; dsimp only
